@@ -273,13 +273,13 @@ impl Prop for DoneWithTasks {
         "done_with_tasks"
     }
     fn rule(&self) -> &'static str {
-        "one case = a main program that spawns 1..4 tasks (blocked forever on a channel read / looping forever / finishing / writing forever to a channel nobody reads), does a bounded amount of work and ends in an int expression; under every generated budget sequence the run must report Done within a bounded number of steps, with the final value, and never an error; non-trivial = at least one task that never finishes; distinct by case"
+        "one case = a main program that spawns 1..4 tasks (blocked forever on a channel read / looping forever / finishing / writing forever to a channel nobody reads), does a bounded amount of work and ends in an int expression; under every generated budget sequence the run must report Done, with the final value, never an error, and after at most 10 x (tasks + 1) + 20 more executed instructions than the same program needs at budget 1 (completion is reported as soon as main finishes, not when the slice is used up; the slack covers the shift of the round-robin rotation at slice boundaries); non-trivial = at least one task that never finishes; distinct by case"
     }
     fn n_cases(&self, tier: Tier) -> u32 {
         tier.pick(1500, 15000)
     }
     fn strategy(&self, _tier: Tier, _f: &Findings) -> BoxedStrategy<Self::Case> {
-        (proptest::collection::vec(0u8..4, 1..5), 0u8..20, proptest::collection::vec(prop_oneof![1u32..4, 1u32..50, 1u32..2000], 1..4), -1000i64..1000)
+        (proptest::collection::vec(0u8..4, 1..5), 0u8..20, proptest::collection::vec(prop_oneof![1u32..4, 1u32..50, 1u32..2000, 500u32..100_000], 1..4), -1000i64..1000)
             .prop_map(|(tasks, main_work, budgets, final_value)| DoneCase { tasks, main_work, budgets, final_value })
             .boxed()
     }
@@ -293,12 +293,18 @@ impl Prop for DoneWithTasks {
                 _ => src.push_str("task {\n  var i = 0\n  while true {\n    i = (i + 1) % 1000\n    sink.write(i)\n    let y = sink.read()\n  }\n}\n"),
             }
         }
-        src.push_str(&format!("var acc = 0\nfor i in {} {{\n  acc += i\n}}\nprintln(acc)\n{} + 0\n", c.main_work, int_lit(c.final_value)));
+        // main makes no host call: while a host call is pending the other tasks use up the rest of the slice,
+        // so the instruction count up to Done would legitimately depend on the budgets
+        src.push_str(&format!("var acc = 0\nfor i in {} {{\n  acc += i\n}}\n{} + acc\n", c.main_work, int_lit(c.final_value)));
         let w = c.main_work as i64;
-        let expected = format!("{}\n", w * (w - 1) / 2);
+        let expected = String::new();
+        let final_expected = c.final_value + w * (w - 1) / 2;
         let opts = RunOpts { budgets: c.budgets.clone(), want_final: FinalKind::Int, max_steps: 2_000_000, max_calls: 2_000_000, extra_calls_after_end: 2, record_calls: true, ..RunOpts::default() };
-        let r = try_exec!(env.run1(&src, &opts));
+        // the same program at budget 1 is the reference for "as soon as the main program finishes"
+        let outs = try_exec!(env.run_var(&single(src.clone()), "main.abra", &opts, &[Variant::sel(0), Variant { budgets: vec![1], ..Variant::sel(0) }]));
+        let (r, base) = (outs[0].clone(), outs[1].clone());
         let mut st = CaseStats::one();
+        st.evals = 2;
         if let Some(f) = crash_failure(&r) {
             return Verdict::Fail(f.detail(json!({"src": src})));
         }
@@ -312,14 +318,20 @@ impl Prop for DoneWithTasks {
         if r.stdout != expected {
             return fail(format!("main task output {:?}, expected {:?}", r.stdout, expected));
         }
-        if r.final_value != Some(Scalar::Int(c.final_value)) {
-            return fail(format!("final value {:?}, expected {}", r.final_value, c.final_value));
+        if r.final_value != Some(Scalar::Int(final_expected)) {
+            return fail(format!("final value {:?}, expected {}", r.final_value, final_expected));
         }
         if r.after_end.iter().any(|s| *s != 'D') {
             return fail(format!("Done does not persist: {:?}", r.after_end));
         }
         if let Err(m) = check_log(&r, false) {
             return fail(m);
+        }
+        // where a slice boundary falls shifts the round-robin rotation a little (a few instructions per
+        // task on the unchanged tree); running on until the slice is used up costs far more than that
+        let slack = 10 * (c.tasks.len() as u64 + 1) + 20;
+        if matches!(base.end, RunEnd::Done) && r.steps > base.steps + slack {
+            return fail(format!("completion is not reported as soon as the main program finishes: Done after {} instructions at budgets {:?}, after {} at budget 1 (allowed difference {slack})", r.steps, c.budgets, base.steps));
         }
         if c.tasks.iter().any(|t| *t != 2) {
             st.nt(&(c.tasks.clone(), c.main_work, c.budgets.clone()));
